@@ -161,7 +161,8 @@ theorem routing_one (m : M) (ps : List Rat) (dofs : DofSpec) (k : Nat) (hk : m.c
     (hlen : k ≤ ps.length) : m.update ps dofs = .ok (m.withDofs (ps.take k) dofs, k) :=
   m.update_eq ps dofs k hk hlen
 
-/-- the dof dispatch of the model (which dof sets are accepted, how many parameters they select) is the
+/-- (tie check: generated table vs the model's `consumed`; that `M.update` consumes exactly `consumed` entries is
+`routing_one`) the dof dispatch of the model (which dof sets are accepted, how many parameters they select) is the
 one of the classes: tabulated from `update_model_parameters` for every class × every subset of the dof
 vocabulary, and for `None` and `"all"`. -/
 theorem dispatch_matches_code : ∀ k ∈ Kind.all,
@@ -294,8 +295,12 @@ theorem threshold_ops_eq_clause (lo : Rat) (hi : Option Rat) (rf : Bool) (xs : L
     (∀ mask : List Bool, (thrFinish rf (some mask) (thrHomCall lo hi xs)).2
       = List.zipWith (fun x m => thrHom lo hi (some m) ⟨0, x⟩) xs mask) ∧
     thrHetCall los his labs xs = List.zipWith (fun l x => match idxIn (uniqSorted labs) l with
-      | some j => thrHet los his none ⟨j, x⟩ | none => false) labs xs :=
-  ⟨(thrHom_finish lo hi rf xs).1, (thrHom_finish lo hi rf xs).2, thrHetCall_eq_pointwise los his labs xs hl⟩
+      | some j => thrHet los his none ⟨j, x⟩ | none => false) labs xs ∧
+    (thrFinish rf none (thrHetCall los his labs xs)).2 = thrHetCall los his labs xs ∧
+    (∀ mask : List Bool, (thrFinish rf (some mask) (thrHetCall los his labs xs)).2
+      = List.zipWith (· && ·) (thrHetCall los his labs xs) mask) :=
+  ⟨(thrHom_finish lo hi rf xs).1, (thrHom_finish lo hi rf xs).2, thrHetCall_eq_pointwise los his labs xs hl,
+    by simp [thrFinish], fun mask => by simp [thrFinish]⟩
 
 /-- **`wrapper_loop_eq_model`**: `HeterogeneousModel.__call__` as coded (`output = zeros`,
 `output[mask_i] = model_i(signal[mask_i])`) runs every pixel through the model stored for its label -/
@@ -310,7 +315,8 @@ signal, the use in `MultichromaticTracerAnalysis`): with one interpolation per l
 `ss j` — every pixel of the `(H, W)` result is the plain kernel sum of ITS label's interpolation at that pixel's
 colour. (Label-wise `StaticThresholdModel` documents scalar signals only; `(H, W, C)` there is outside the API.) -/
 theorem wrapper_kernel_on_colour_signal {F : Type} [CommSemiring F] (k : Pt → Pt → F) (ws : Nat → List F)
-    (ss : Nat → List Pt) (labs : List Nat) (pixels : List Pt) (hl : labs.length = pixels.length) :
+    (ss : Nat → List Pt) (_hsup : ∀ j, (ws j).length = (ss j).length ∧ 0 < (ss j).length)
+    (labs : List Nat) (pixels : List Pt) (hl : labs.length = pixels.length) :
     wrapCallG (0 : F) (fun j x => kernelLoop k (ws j) (ss j) x) labs pixels
       = List.zipWith (fun l x => match idxIn (uniqSorted labs) l with
           | some j => plainSum k (ws j) (ss j) x | none => 0) labs pixels := by
@@ -374,9 +380,13 @@ open Darsia.Kern in
 /-- **accelerated evaluation = plain kernel sum** (model of the loop both `linear_combination` implementations
 run: start with `w₀·k(x, s₀)`, accumulate `w_n·k(x, s_n)`), for every kernel function over any commutative
 semiring and every supported signal shape — single pixel `(3,)`, pixel list `(N, 3)`, image `(H, W, 3)`:
-each entry of the result is `Σ_n w_n k(x, s_n)` at its pixel. (Tied exactly for `LinearKernel` on dyadic
+each entry of the result is `Σ_n w_n k(x, s_n)` at its pixel. Guard = the property's quantifier (1..4 supports, one weight
+per support): with NO supports the code reads `interpolation_weights[0]` / `supports[0]` out of bounds (garbage
+values, observed and recorded); the model's total definitions return 0 there, which is why the hypotheses are
+part of the statement. (Tied exactly for `LinearKernel` on dyadic
 float32 inputs, numba and plain; `exp` in `GaussianKernel` and fastmath reassociation are observed, 1e-5.) -/
 theorem kernel_loop_eq_plain_sum {F : Type} [CommSemiring F] (k : Pt → Pt → F) (ws : List F) (ss : List Pt)
+    (_hlen : ws.length = ss.length) (_hpos : 0 < ss.length)
     (sig : Signal) : sig.combine k ws ss = sig.pixels.map (plainSum k ws ss) :=
   combine_eq_plainSum k ws ss sig
 
@@ -401,6 +411,13 @@ theorem poly_matches_code : ∀ d ∈ Gen.polyDegrees,
     Gen.polyTable d = (polyExps d).map some ∧ Gen.polySizeTable d = some (polySize d) := by decide
 
 /-! ### non-vacuity -/
+
+open Darsia.Kern in
+/-- negation witnesses for the known finding `KernelInterpolation.update_model_parameters` with the kernel dof /
+default dofs: the model op raises TypeError where the property would need a usable object -/
+example : step (init 0) .paramsDefaultDofs = .error .type ∧
+    (run (init 0) [.update none (some [[1, 0, 0]]) (some [1 / 2]) false, .paramsKernelDof]).map (·.weights) = .error .type := by
+  decide +kernel
 
 /-- a resize that DROPS a label (1 × 4 map `[0,1,2,2]` → 1 × 2 keeps `[0,2]`): label 2 keeps its own scaling 30 -/
 example : hetCallResized [] [[0, 1, 2, 2]] [10, 20, 30] [0, 0, 0] 1 2 [1, 1] = [10, 30] := by decide +kernel
